@@ -23,8 +23,9 @@ class ModuleInfo:
         self.aliases = {}      # top-level  a = b  (Name = Name) bindings, e.g. interp_lin_only = interp_lin_numba
         self.consts = {}       # top-level  NAME = <literal>
         self.lines = text.splitlines()
+        self.is_pkg = os.path.basename(path) == '__init__.py'
         for node in tree.body:
-            collect_imports(node, self.imports, modname)
+            collect_imports(node, self.imports, modname, self.is_pkg)
             if isinstance(node, ast.FunctionDef):
                 self.functions[node.name] = node
             elif isinstance(node, ast.ClassDef):
@@ -39,7 +40,7 @@ class ModuleInfo:
                     pass
 
 
-def collect_imports(node, table, modname):
+def collect_imports(node, table, modname, is_pkg=False):
     if isinstance(node, ast.Import):
         for a in node.names:
             table[a.asname or a.name.split('.')[0]] = a.name if a.asname else a.name.split('.')[0]
@@ -48,7 +49,7 @@ def collect_imports(node, table, modname):
         if node.level:
             pkg = modname.split('.')
             # a module's package is modname minus last component
-            pkg = pkg[:len(pkg) - node.level]
+            pkg = pkg[:len(pkg) - node.level + (1 if is_pkg else 0)]
             base = '.'.join(pkg + ([node.module] if node.module else []))
         for a in node.names:
             table[a.asname or a.name] = base + '.' + a.name
